@@ -660,6 +660,59 @@ func propC14(h *H) {
 		}
 		h.Outcome(role)
 	}
+	// compositions: Union / Intersect of the sets that Set builds from two lists
+	if fs := h.F("set"); fs.IsValid() {
+		lt := fs.Type().In(0)
+		lists := append([][]int{nil}, short...)
+		for _, role := range []string{"unionm", "intersectm"} {
+			f := h.F(role)
+			if !f.IsValid() {
+				continue
+			}
+			for la, ia := range lists {
+				for lb, ib := range lists {
+					ra, p1 := Call(fs, mkList(lt, pool, ia, la == 0))
+					rb, p2 := Call(fs, mkList(lt, pool, ib, lb == 0))
+					if p1 != "" || p2 != "" {
+						continue // reported above
+					}
+					wantSet := map[string]bool{}
+					ca, cb := canonSet(ia), canonSet(ib)
+					for _, x := range ca {
+						if role == "unionm" {
+							wantSet[x] = true
+						} else {
+							for _, y := range cb {
+								if x == y {
+									wantSet[x] = true
+								}
+							}
+						}
+					}
+					if role == "unionm" {
+						for _, y := range cb {
+							wantSet[y] = true
+						}
+					}
+					var want []string
+					for x := range wantSet {
+						want = append(want, x)
+					}
+					sort.Strings(want)
+					h.St.States++
+					res, pan := Call(f, ra[0], rb[0])
+					h.St.Evals++
+					if pan != "" {
+						h.Violation(role+"-of-sets-panics", typeShapeKey(E), pan, mkList(lt, pool, ia, la == 0), mkList(lt, pool, ib, lb == 0))
+						continue
+					}
+					if !eqStrs(keySet(res[0]), want) {
+						h.Violation(role+"-of-sets-wrong", typeShapeKey(E), "output "+Show(res[0]), mkList(lt, pool, ia, la == 0), mkList(lt, pool, ib, lb == 0))
+					}
+				}
+			}
+		}
+	}
 	// predicate based helpers
 	type predSpec struct {
 		name string
